@@ -3,7 +3,7 @@
    every size, every (Ne, nPg); none has a hypothesis relating Ne, nPg and tensor dimensions.
    The model is tied to /repo by the exact differential correspondence of props/C12.py. *)
 From Coq Require Import List Arith Bool ZArith QArith Lia.
-From EFModel Require Import C12_FeShape C12_FeTensor C12_FeProofs C12_FeFlat C12_FeReduce2 C12_FeReduceN C12_FeQ.
+From EFModel Require Import C12_FeShape C12_FeTensor C12_FeProofs C12_FeFlat C12_FeReduce2 C12_FeReduceN C12_FeReduceMax C12_FeQ.
 Import ListNotations.
 Local Open Scope nat_scope.
 
@@ -176,84 +176,3 @@ Print Assumptions C12_shape_of_aligned_ufunc.
 Definition C12_flat_roundtrip := to_flat_of_flat.
 Print Assumptions to_flat_of_flat.
 
-(* ---------------------------------------------------------------------------------- *)
-(* keepdims / tuple-axis reductions, swapaxes / concatenate / stack on tensor axes,    *)
-(* out= and in-place operators                                                         *)
-(* ---------------------------------------------------------------------------------- *)
-Definition C12_reducer_keepdims_typing := reducer_keepdims_typing.
-Definition C12_reduce_pair_is_composition := reduce_pair_is_composition.
-Definition C12_swapaxes_tensor_pointwise := swapaxes_tensor_pointwise.
-Definition C12_stack_tensor_pointwise := stack_tensor_pointwise.
-Definition C12_concat_tensor_pointwise := concat_tensor_pointwise.
-Definition C12_ufunc2_out_spec := ufunc2_out_spec.
-Definition C12_inplace_fe_plain := inplace_fe_plain.
-Print Assumptions reducer_keepdims_typing.
-Print Assumptions reduce_pair_is_composition.
-Print Assumptions sum_pair_is_composition_Z.
-(* ANY tuple of axes (ascending positions): peel the largest position first; iterated, the tuple
-   reduction is one single-axis reduction per axis -- for every array and every reducer with
-   f (concat ls) = f (map f ls) and f [x] = x *)
-Definition C12_reduce_snoc_is_composition := reduce_snoc_is_composition.
-Definition C12_reduce_tuple_is_composition := reduce_tuple_is_composition.
-Definition C12_qsum_qprod_tuple_is_composition := qsum_qprod_tuple_is_composition.
-Print Assumptions reduce_snoc_is_composition.
-Print Assumptions reduce_tuple_is_composition.
-Print Assumptions qsum_qprod_tuple_is_composition.
-Example tuple_hyp_satisfiable : asc [2; 3] /\ asc [1; 3; 4].
-Proof.
-  split; [change [2; 3] with (([] ++ [2]) ++ [3]) | exact asc_example];
-    repeat (apply asc_snoc); try apply asc_nil; unfold all_below; repeat constructor.
-Qed.
-(* the rational sum / product the case files compute with (Leibniz equality in Q) *)
-Definition C12_qsum_qprod_pair_is_composition := qsum_qprod_pair_is_composition.
-Print Assumptions qsum_qprod_pair_is_composition.
-Print Assumptions swapaxes_tensor_pointwise.
-Print Assumptions stack_tensor_pointwise.
-Print Assumptions concat_tensor_pointwise.
-Print Assumptions inplace_fe_plain.
-
-Example array_functions_on_tensor_axes :
-  let a := feZ [1; 2; 2] [1; 2; 3; 4]%Z in
-  let b := feZ [1; 2; 2] [5; 6; 7; 8]%Z in
-  observeQ d0 i0 (EConcat Q (-1)%Z [a; b]) = (1, [1; 2; 4], map inject_Z [1; 2; 5; 6; 3; 4; 7; 8]%Z) /\
-  observeQ d0 i0 (EStack Q 2%Z [a; b]) = (1, [1; 2; 2; 2], map inject_Z [1; 2; 5; 6; 3; 4; 7; 8]%Z) /\
-  observeQ d0 i0 (EReduceKd Q 0 (Some [(-1)%Z]) a) = (1, [1; 2; 1], map inject_Z [3; 7]%Z) /\
-  observeQ d0 i0 (EOut Q 0 a (plZ [2] [10; 20]%Z) [1; 2; 2] true) = (1, [1; 2; 2], map inject_Z [11; 22; 13; 24]%Z) /\
-  observeQ d0 i0 (EOut Q 0 a (plZ [3; 2] [1; 1; 1; 1; 1; 1]%Z) [1; 2; 2] true) = (11, [], []).
-Proof. repeat split; vm_compute; reflexivity. Qed.
-
-(* ---------------------------------------------------------------------------------- *)
-(* the typing rule of __array_function__ AS WRITTEN (res.shape[:2] == (Ne, nPg)) versus  *)
-(* the sound rule (the operation preserves the leading axes): the two known findings     *)
-(* ---------------------------------------------------------------------------------- *)
-(* agreement iff no coincidence, for any operation described by [preserved] *)
-Definition C12_wrap_rule_agrees_iff_no_coincidence := wrap_rule_agrees_iff_no_coincidence.
-(* np.swapaxes(fe, 0, 1): FeArray exactly when Ne = nPg, and it then holds a[p, e] at (e, p) *)
-Definition C12_swapaxes_lead_typing := swapaxes_lead_typing.
-(* np.stack([a, b], axis=0): FeArray exactly when 2 = Ne = nPg *)
-Definition C12_stack_lead_typing := stack_lead_typing.
-Print Assumptions wrap_rule_agrees_iff_no_coincidence.
-Print Assumptions swapaxes_lead_typing.
-Print Assumptions stack_lead_typing.
-
-(* "a FeArray result holds at (e, p) a tensor computed from the operands at (e, p)" is REFUTED for
-   the rule as written, at the coincidence Ne = nPg (known findings
-   array-function-wrap:shape-coincidence:{swapaxes,stack}); without the coincidence the same
-   calls are typed as plain arrays *)
-Example as_written_rule_swapaxes_refuted :
-  observeQ d0 i0 (ESwapaxes Q 0%Z 1%Z (feZ [2; 2; 1] [1; 2; 3; 4]%Z)) = (1, [2; 2; 1], map inject_Z [1; 3; 2; 4]%Z) /\
-  fst (fst (observeQ d0 i0 (ESwapaxes Q 0%Z 1%Z (feZ [2; 3; 1] [1; 2; 3; 4; 5; 6]%Z)))) = 0.
-Proof. split; vm_compute; reflexivity. Qed.
-
-Example as_written_rule_stack_refuted :
-  observeQ d0 i0 (EStack Q 0%Z [feZ [2; 2] [1; 2; 3; 4]%Z; feZ [2; 2] [5; 6; 7; 8]%Z])
-    = (1, [2; 2; 2], map inject_Z [1; 2; 3; 4; 5; 6; 7; 8]%Z) /\
-  fst (fst (observeQ d0 i0 (EStack Q 0%Z [feZ [3; 2] [1; 2; 3; 4; 5; 6]%Z; feZ [3; 2] [1; 2; 3; 4; 5; 6]%Z]))) = 0.
-Proof. split; vm_compute; reflexivity. Qed.
-
-Example no_coincidence_hyp_satisfiable : ~ coincidence false [2; 3; 1] [3; 2] /\ coincidence false [2; 2; 1] [2; 2].
-Proof.
-  split.
-  - intros [_ [_ H]]. discriminate.
-  - repeat split; simpl; lia.
-Qed.
